@@ -589,6 +589,10 @@ func (association *Association) saveAssociation(clear bool, values ...interface{
 
 			// TODO support save slice data, sql with case?
 			association.Error = associationDB.Updates(reflectValue.Index(i).Addr().Interface()).Error
+			if association.Error != nil {
+				// the next element's appendToRelations assigns association.Error again
+				return
+			}
 		}
 	case reflect.Struct:
 		// clear old data
